@@ -671,6 +671,384 @@ def witness_f9(chk):
                       {"kind": "mismatch", "witness": "harness/checks/c04.py witness_f9", "classes": [F_ALIAS]})
 
 
+
+# ------------------------------------------------------------------------------------------------
+# stream `emit`: the emitter model (Model/Rtlil/EmitExpr.lean, theorem C04.emit_expr_correct) against the real emitter
+
+def emit_unshare(v):
+    """the same value as a *tree* of fresh AST nodes (signals are kept): `emit_rhs` caches by object identity, so an
+    object that occurs twice is emitted once; the model's expressions are trees"""
+    from amaranth.hdl import _ast as A
+    v = A.Value.cast(v)
+    if isinstance(v, A.Const):
+        return A.Const(v.value, v.shape())
+    if isinstance(v, A.Signal):
+        return v
+    if isinstance(v, A.Operator):
+        return A.Operator(v.operator, [emit_unshare(o) for o in v.operands])
+    if isinstance(v, A.Slice):
+        return A.Slice(emit_unshare(v.value), v.start, v.stop)
+    if isinstance(v, A.Part):
+        return A.Part(emit_unshare(v.value), emit_unshare(v.offset), v.width, v.stride)
+    if isinstance(v, A.Concat):
+        return A.Concat([emit_unshare(p) for p in v.parts])
+    if isinstance(v, A.SwitchValue):
+        return A.SwitchValue(emit_unshare(v.test), [(pats, emit_unshare(val)) for pats, val in v.cases])
+    raise TypeError(f"cannot rebuild {v!r}")
+
+
+def emit_unencodable(v):
+    """why the model's expression syntax cannot tell this value from another one that the emitter treats differently
+    (None: it can).  `Expr` writes a choice as a chain of cases ending in the empty constant and a default as the
+    single all-don't-care pattern, so (a) a choice without cases is the empty constant (its test is lost), (b) a
+    two-case choice `0…0` / *written* all-don't-care pattern reads as the `Mux` form, which the code only recognises with
+    a real default, (c) likewise a default first case over a zero-width test, (d) a unary `+` is dropped"""
+    from amaranth.hdl import _ast as A
+    if isinstance(v, (A.Const, A.Signal)):
+        return None
+    if isinstance(v, A.Operator):
+        if len(v.operands) == 1 and v.operator == "+":
+            return "unary_plus"
+        subs = list(v.operands)
+    elif isinstance(v, A.Slice):
+        subs = [v.value]
+    elif isinstance(v, A.Part):
+        subs = [v.value, v.offset]
+    elif isinstance(v, A.Concat):
+        subs = list(v.parts)
+    elif isinstance(v, A.SwitchValue):
+        n = len(v.test)
+        if len(v.cases) == 0:
+            return "choice_without_cases"
+        if len(v.cases) == 2:
+            p0, p1 = v.cases[0][0], v.cases[1][0]
+            zero_like = p0 == ("0" * n,) or (p0 is None and n == 0)
+            dash_like = p1 is None or p1 == ("-" * n,)
+            if zero_like and dash_like and not (p0 == ("0" * n,) and p1 is None):
+                return "mux_form_with_written_dont_care"
+        subs = [v.test] + [val for _p, val in v.cases]
+    else:
+        return "other:" + type(v).__name__
+    for x in subs:
+        r = emit_unencodable(x)
+        if r:
+            return r
+    return None
+
+
+def _spec_tokens(toks, pos):
+    """one sigspec starting at toks[pos] -> (canonical chunks as raw (name|const, selector) list, braces?, new pos)"""
+    def chunk(pos):
+        t = toks[pos]
+        if pos + 1 < len(toks) and toks[pos + 1].startswith("["):
+            return (t, toks[pos + 1]), pos + 2
+        return (t, ""), pos + 1
+    if toks[pos] == "{":
+        pos += 1
+        out = []
+        while toks[pos] != "}":
+            c, pos = chunk(pos)
+            out.append(c)
+        return (out, True), pos + 1
+    c, pos = chunk(pos)
+    return ([c], False), pos
+
+
+def emit_canon_text(text):
+    """the body of the (single) emitted module in the canonical form the driver prints for the model (see
+    Driver/C04Main.lean): generated names `$k` — and `\out` — renamed in order of first occurrence in cells/processes
+    -> (canonical string, {cell type: count})"""
+    lines = [ln.strip() for ln in text.split("\n")]
+    lines = [ln for ln in lines if ln and not ln.startswith("attribute ")]
+    widths = {}
+    nodes = []          # ("cell", type, [(param, value)], [(port, spec)]) | ("proc", body)
+    result = None
+    names = []
+
+    def see(spec):
+        for n, _sel in spec[0]:
+            if (n.startswith("$") or n == "\\out") and n not in names:
+                names.append(n)
+
+    def parse_body(i):
+        """statements until `end`/`case` -> (list of items, index of the terminating line)"""
+        items = []
+        while True:
+            toks = lines[i].split()
+            if toks[0] == "assign":
+                l, p = _spec_tokens(toks, 1)
+                r, p = _spec_tokens(toks, p)
+                see(l); see(r)
+                items.append(("assign", l, r))
+                i += 1
+            elif toks[0] == "switch":
+                sel, _p = _spec_tokens(toks, 1)
+                see(sel)
+                i += 1
+                cases = []
+                while lines[i].split()[0] == "case":
+                    pats = [x.strip() for x in lines[i][4:].split(",") if x.strip()]
+                    body, i = parse_body(i + 1)
+                    cases.append((pats, body))
+                assert lines[i] == "end", lines[i]
+                i += 1
+                items.append(("switch", sel, cases))
+            else:
+                return items, i
+    i = 0
+    hist = {}
+    while i < len(lines):
+        toks = lines[i].split()
+        if toks[0] == "wire":
+            widths[toks[-1]] = int(toks[2])
+            i += 1
+        elif toks[0] == "cell":
+            ty = toks[1]
+            hist[ty] = hist.get(ty, 0) + 1
+            params, conns = [], []
+            i += 1
+            while lines[i] != "end":
+                t = lines[i].split()
+                if t[0] == "parameter":
+                    params.append((t[-2], t[-1]))
+                elif t[0] == "connect":
+                    spec, _p = _spec_tokens(t, 2)
+                    see(spec)
+                    conns.append((t[1], spec))
+                else:
+                    raise ValueError("unexpected line in cell: " + lines[i])
+                i += 1
+            i += 1
+            nodes.append(("cell", ty, params, conns))
+        elif toks[0] == "process":
+            hist["process"] = hist.get("process", 0) + 1
+            body, i = parse_body(i + 1)
+            assert lines[i] == "end", lines[i]
+            i += 1
+            nodes.append(("proc", body))
+        elif toks[0] == "connect":
+            lhs, p = _spec_tokens(toks, 1)
+            rhs, p = _spec_tokens(toks, p)
+            if lhs == ([("\\out", "")], False):
+                result = rhs
+            else:
+                raise ValueError("unexpected connect: " + lines[i])
+            i += 1
+        elif toks[0] in ("module", "end"):
+            i += 1
+        else:
+            raise ValueError("unexpected line: " + lines[i])
+    if result is None:
+        w = widths.get("\\out", 0)
+        result = ([("\\out", "[0]" if w == 1 else f"[{w - 1}:0]")], False) if w else ([], True)
+    see(result)
+
+    def ren(n):
+        return f"w{names.index(n)}" if n in names else n
+
+    def spec_s(spec):
+        cs = " ".join(ren(n) + sel for n, sel in spec[0])
+        return "{" + cs + "}" if spec[1] else cs
+
+    def body_s(items):
+        out = ""
+        for it in items:
+            if it[0] == "assign":
+                out += f"assign {spec_s(it[1])} {spec_s(it[2])};"
+            else:
+                out += f"switch {spec_s(it[1])}[" + "".join(f"case {','.join(p)}:{body_s(b)}|" for p, b in it[2]) + "]"
+        return out
+    parts = ["wires " + " ".join(f"{ren(n)}:{widths[n]}" for n in names if n in widths)]
+    for nd in nodes:
+        if nd[0] == "cell":
+            parts.append(f"cell {nd[1]} " + ",".join(f"{k}={v}" for k, v in nd[2]) + " " + ",".join(f"{k}={spec_s(sp)}" for k, sp in nd[3]))
+        else:
+            parts.append("proc " + body_s(nd[1]))
+    parts.append("result " + spec_s(result))
+    return " ## ".join(parts), hist
+
+
+def emit_ops(v, hist):
+    """histogram of the AST node kinds of an expression"""
+    from amaranth.hdl import _ast as A
+    if isinstance(v, A.Const):
+        k, subs = "const", []
+    elif isinstance(v, A.Signal):
+        k, subs = "sig", []
+    elif isinstance(v, A.Operator):
+        k, subs = f"op{len(v.operands)}:{v.operator}", list(v.operands)
+    elif isinstance(v, A.Slice):
+        k, subs = "slice", [v.value]
+    elif isinstance(v, A.Part):
+        k, subs = "part:" + ("signed" if v.value.shape().signed else "unsigned") + (":stride" if v.stride != 1 else ""), [v.value, v.offset]
+    elif isinstance(v, A.Concat):
+        k, subs = "cat", list(v.parts)
+    elif isinstance(v, A.SwitchValue):
+        n = len(v.test)
+        mux = len(v.cases) == 2 and v.cases[0][0] == ("0" * n,) and v.cases[1][0] is None
+        k, subs = ("switch:mux" if mux else f"switch:cases{min(len(v.cases), 4)}"), [v.test] + [val for _p, val in v.cases]
+    else:
+        k, subs = "other", []
+    hist[k] = hist.get(k, 0) + 1
+    for x in subs:
+        emit_ops(x, hist)
+
+
+def emit_case(seed):
+    """one expression: real `rtlil.convert` of `out.eq(expr)` in canonical form, the request for the model"""
+    from amaranth.hdl import Signal, Module
+    from amaranth.back import rtlil
+    from .. import gen_expr
+    rng = random.Random(seed)
+    case = {"seed": seed}
+    try:
+        sigs = gen_expr.make_signals(rng, rng.randint(1, 4), maxw=rng.choice([3, 5, 8]))
+        g = gen_expr.Gen(rng, sigs, maxw=rng.choice([3, 5, 8]))
+        expr = g.expr(rng.choice([1, 2, 2, 3, 3, 4]))
+        why = emit_unencodable(expr)
+        if why:
+            case["skip"] = why
+            return case
+        expr = emit_unshare(expr)
+        envs = [[gen_expr.rand_value(rng, s.shape()) for s in sigs] for _ in range(4)]
+    except Exception as e:
+        case["generator_error"] = (errkind(e), repr(e)[:300])
+        return case
+    ops = {}
+    emit_ops(expr, ops)
+    case["ops"] = ops
+    sigidx = {id(s): k for k, s in enumerate(sigs)}
+    case["expr"] = common.ser_value(expr, sigidx)
+    case["ctx"] = common.ser_ctx([s.shape() for s in sigs])
+    case["envs"] = envs
+    case["request"] = f"(emit {case['ctx']} {case['expr']} " + " ".join(common.ser_env(e) for e in envs) + ")"
+    try:
+        out = Signal(expr.shape(), name="out")
+        m = Module()
+        m.d.comb += out.eq(expr)
+        text = rtlil.convert(m, ports=sigs + [out], emit_src=False)
+    except Exception as e:
+        case["error"] = (errkind(e), (str(e) or repr(e))[:300])
+        return case
+    case["text"] = text
+    case["width"] = len(expr)
+    try:
+        case["canon"], case["cells"] = emit_canon_text(text)
+    except Exception as e:
+        case["canon_error"] = repr(e)[:300]
+    return case
+
+
+def emit_job(args):
+    seeds, exe = args
+    out = [emit_case(s) for s in seeds]
+    todo = [c for c in out if "request" in c]
+    if todo:
+        for c, r in zip(todo, common.Driver(exe).ask([c["request"] for c in todo])):
+            c["resp"] = r
+    return out
+
+
+def emit_resimulate(case):
+    """the real emitted text under the RTLIL evaluator against the real simulator, on the case's environments
+    -> (rtlil values | None, simulator values | None)"""
+    from amaranth.hdl import Signal, Module
+    from amaranth.sim import Simulator
+    from .. import gen_expr
+    rng = random.Random(case["seed"])
+    sigs = gen_expr.make_signals(rng, rng.randint(1, 4), maxw=rng.choice([3, 5, 8]))
+    g = gen_expr.Gen(rng, sigs, maxw=rng.choice([3, 5, 8]))
+    expr = emit_unshare(g.expr(rng.choice([1, 2, 2, 3, 3, 4])))
+    envs = case["envs"]
+    w = len(expr)
+    out = Signal(expr.shape(), name="out")
+    m = Module()
+    m.d.comb += out.eq(expr)
+    sim_vals = []
+
+    async def tb(ctx):
+        for env in envs:
+            for s, v in zip(sigs, env):
+                ctx.set(s, v)
+            sim_vals.append(ctx.get(out) & ((1 << w) - 1))
+    try:
+        sim = Simulator(m)
+        sim.add_testbench(tb)
+        sim.run()
+    except Exception:
+        sim_vals = None
+    if w == 0:
+        return [0] * len(envs), sim_vals
+    live = [(k, s) for k, s in enumerate(sigs) if len(s)]
+    init = " ".join(f'({esc(chr(92) + s.name)} 0)' for _k, s in live)
+    evs = " ".join("(" + " ".join(f"({esc(chr(92) + s.name)} {env[k] & ((1 << len(s)) - 1)})" for k, s in live) + ")" for env in envs)
+    req = f'(run {esc(case["text"])} (init {init}) (events {evs}) (obs {esc(chr(92) + "out")}))'
+    d = dict(tok.split("=", 1) for tok in common.Driver(EXE).ask([req])[0].split("\t") if "=" in tok)
+    rt = [row[0] for row in parse_rows(d["trace"])[1:]] if d.get("eval") == "ok" and d.get("xdep") == "0" else None
+    return rt, sim_vals
+
+
+def emit_judge(chk, case):
+    if "generator_error" in case:
+        chk.hist("emit_outcome", "generator_error:" + case["generator_error"][0])
+        return
+    if "skip" in case:
+        chk.hist("emit_outcome", "not_encodable:" + case["skip"])
+        return
+    if "error" in case:
+        chk.count(1)
+        chk.hist("emit_outcome", "convert_raises:" + case["error"][0])
+        chk.violation(f"rtlil.convert of out.eq(expr) raises {case['error'][0]}: {case['error'][1][:120]} (emit seed {case['seed']})",
+                      {"kind": "raises", "stream": "emit", "emit_seed": case["seed"], "expr": case["expr"], "ctx": case["ctx"], "classes": []})
+        return
+    chk.count(1)
+    for k, v in case["ops"].items():
+        chk.hist("emit_operators", k, v)
+    for k, v in case.get("cells", {}).items():
+        chk.hist("emit_cell_types", k, v)
+    d = dict(tok.split("=", 1) for tok in case["resp"].split("\t") if "=" in tok)
+    replay = {"stream": "emit", "emit_seed": case["seed"], "ctx": case["ctx"], "expr": case["expr"], "envs": case["envs"],
+              "how": "harness.checks.c04.emit_case(emit_seed) rebuilds the expression, converts out.eq(expr) and prints the "
+                     "canonical cell list; `(emit ctx expr env*)` to amodel_c04 prints the model's"}
+    if d.get("emit") != "ok" or "canon" not in case:
+        chk.hist("emit_outcome", "driver_or_reader_error")
+        chk.not_shown("emit stream: the driver or the text canonicaliser failed", dict(replay, resp=case["resp"][:300], err=case.get("canon_error")))
+        return
+    ev, rtl = d.get("ev", "").split(","), d.get("rtl", "").split(",")
+    inside = d.get("part") == "1"
+    chk.hist("emit_depth_cells", min(sum(case["cells"].values()), 12))
+    if d["canon"] != case["canon"]:
+        # the model of the emitter is not the emitter: is the property broken on this expression?
+        chk.hist("emit_outcome", "cells_differ")
+        rt, sv = emit_resimulate(case)
+        if rt is not None and sv is not None and rt != sv and inside:
+            chk.violation(f"out.eq(expr): the emitted RTLIL gives {rt} and the simulator {sv} on the same inputs (emit seed {case['seed']})",
+                          dict(replay, kind="mismatch", rtlil=rt, simulator=sv, classes=[]))
+        elif rt is not None and sv is not None and rt != sv:
+            chk.violation(f"out.eq(expr) with a signed part-select: RTLIL {rt}, simulator {sv} (emit seed {case['seed']})",
+                          dict(replay, kind="mismatch", rtlil=rt, simulator=sv, classes=[F_SPART]))
+        else:
+            chk.not_shown("emit stream: the cells the model emits differ from the cells rtlil.convert emits (the RTLIL still "
+                          "agrees with the simulator on the inputs tried)", dict(replay, model=d["canon"][:3000], real=case["canon"][:3000]))
+        return
+    chk.distinct(case["canon"], nontrivial=bool(case["cells"]))
+    if ev != rtl:
+        if not inside:
+            # finding F27: the emitted `$shift` of a signed value; the cells are what the code emits, and they do not compute
+            # the simulator's value (the theorem's side condition excludes exactly these expressions)
+            chk.hist("emit_outcome", "same_cells_value_differs_F27")
+            chk.violation(f"out.eq(expr) with a part-select of a signed value reaching above it: the emitted cells give {ev}, the "
+                          f"simulator model {rtl} (emit seed {case['seed']})", dict(replay, kind="mismatch", rtlil=ev, simulator=rtl, classes=[F_SPART]))
+        else:
+            chk.hist("emit_outcome", "same_cells_value_differs")
+            chk.not_shown("emit stream: the model's cells, run in the RTLIL evaluator, do not give evalRtl although the expression "
+                          "satisfies the hypotheses of emit_expr_correct_partial", dict(replay, cells=ev, evalRtl=rtl))
+        return
+    chk.hist("emit_outcome", "same_cells" + ("" if inside else "_signed_part_outside_but_values_agree"))
+    if case["cells"]:
+        chk.sample({"stream": "emit", "expr": case["expr"][:200], "canon": case["canon"][:300]}, limit=8)
+
+
 def run(chk):
     if not chk.lean():
         chk.not_shown("Lean build of Properties/C04 failed", chk.build_log[-3000:])
